@@ -1239,6 +1239,40 @@ theorem forward_exposes_all_histories (v : Variant) (hv : v.fixDefrag = true) (w
     rw [this]; exact hv
   exact forward_exposes_stored_history_defrag c b ids hinv hids hcv hl hok t ht
 
+/-! ### a full cache is reported as an error only when it is full -/
+
+/-- **`ErrKvCacheFull` only without room** (repaired coalescing).  If `StartForward` rejects a non-empty
+    batch, then the cache — after the window eviction of the pass — has fewer unowned cells than the batch
+    has tokens: fragmentation alone never causes the error, because `defrag` compacts
+    (`defragCore_compact`, both variants) and keeps the number of free cells (`defragCore_freeCount`).
+    Contrapositive: with at least `b.length` free cells the batch is not rejected as full.  Together with
+    `forward_abs_perm` (placement only uses unowned cells) this is the last clause of the property. -/
+theorem full_only_without_room (c : Cache) (b : List Tok) (h : Inv c) (hfix : c.v.fixDefrag = true)
+    (hb : b ≠ []) (hfull : (startForward c b).2 = .full) :
+    freeCount (slide { c with curBatch := b, except := [] } b).cells < b.length := by
+  have h1 : Inv (slide { c with curBatch := b, except := [] } b) := slide_inv _ b ⟨h.len, h.cover, h.rmax, h.pad, h.size⟩
+  have hv := (slide_v { c with curBatch := b, except := [] } b).1
+  have hk : 0 < b.length := List.length_pos_iff.mpr hb
+  unfold startForward at hfull
+  simp only at hfull
+  split at hfull
+  · cases hfull
+  · split at hfull
+    · cases hfull
+    · split at hfull
+      · cases hfull
+      · rename_i hf2
+        have hcells : (defrag (slide { c with curBatch := b, except := [] } b)).cells
+            = (defragCore true (slide { c with curBatch := b, except := [] } b).cells
+                (slide { c with curBatch := b, except := [] } b).rows).1 := by
+          unfold defrag
+          simp only [hv]
+          rw [show c.v.fixDefrag = true from hfix]
+        rw [hcells] at hf2
+        have := findStart_compact_none _ b.length hk (defragCore_compact true _ _) hf2
+        rw [defragCore_freeCount _ _ h1.len] at this
+        exact this
+
 /-! ### Witnesses of the defects the model shares with the code -/
 
 def fwd (c : Cache) (b : List (Tok × Nat)) : Cache :=
@@ -1335,5 +1369,13 @@ example :
     findStart (f14pre { fixDefrag := true }).cells 3 = none ∧
     (startForward (f14pre { fixDefrag := true }) [⟨0, 1⟩, ⟨0, 2⟩, ⟨0, 3⟩]).2 = .ok ∧
     (defrag (f14pre { fixDefrag := true })).cells ≠ (f14pre { fixDefrag := true }).cells := by decide
+
+/-- non-vacuity of `full_only_without_room`: the 5-cell F14 state (two owned cells in the middle) rejects
+    a 4-token batch — 3 free cells — and accepts a 3-token one although its free cells are not contiguous -/
+example :
+    (startForward (f14pre { fixDefrag := true }) [⟨0, 2⟩, ⟨0, 3⟩, ⟨0, 4⟩, ⟨0, 5⟩]).2 = .full ∧
+    freeCount (f14pre { fixDefrag := true }).cells = 3 ∧
+    findStart (f14pre { fixDefrag := true }).cells 3 = none ∧
+    (startForward (f14pre { fixDefrag := true }) [⟨0, 2⟩, ⟨0, 3⟩, ⟨0, 4⟩]).2 = .ok := by decide
 
 end OllamaVerif.C06
